@@ -30,7 +30,6 @@ package fox
 //@ pred isIgnore(fox *Router, r *http.Request) = st(fox, r) && tsrAllowed(r) && sn(fox, r).route.ignoreTrailingSlash
 //@ pred isRedirect(fox *Router, r *http.Request) = st(fox, r) && tsrAllowed(r) && !sn(fox, r).route.ignoreTrailingSlash && sn(fox, r).route.redirectTrailingSlash && reqPath(r) == CleanPath(reqPath(r))
 
-
 //@ -- ---------------------------------------------------------------- C11: the Allow list
 //@ -- allowed[j] records that the key of method root j was written to the Allow builder (set by the
 //@ -- ghost-set lines below at exactly the WriteString calls that write tree.root[i].key)
@@ -110,7 +109,6 @@ package fox
 //@   loop 3: invariant 0 <= i#3 && c != nil && c.params != nil && c.tsrParams != nil && c.skipNds != nil && !c.tsr && c.route == nil && len(*c.params) == 0 && c.req == r && c.scope == RouteHandler
 
 //@ -- ---------------------------------------------------------------- C09 / C08: hostname first, path-only fallback
-
 
 //@ -- the two walks, abstracted for the caller (their mechanisms are specified separately)
 //@ -- lookupByPath is under contract in verif_contracts_walk.go
